@@ -61,8 +61,8 @@ def cli_subprocess(*args):
 
 
 def read(path):
-    with open(path, 'r', newline='', encoding='utf-8') as f:
-        return f.read()
+    with open(path, 'rb') as f:
+        return f.read().decode('utf-8', errors='replace')  # a damaged file is a finding, not a crash of the harness
 
 
 def write(path, text):
@@ -184,6 +184,9 @@ def check(case):
             raise Bad('load-errors-differ', f'errors {[(x.line, x.encoding) for x in e1]} vs {[(x.line, x.encoding) for x in e2]}')
         if kp.dumps(d1) != kp.dumps(d2):
             raise Bad('load-export-differs', 'exports differ')
+        if e1 and not r['damaged']:
+            # a well-formed document: the converters below only accept files that import without errors
+            raise Bad('import-errors', f'well-formed document imported with errors {[(x.line, x.encoding) for x in e1]}\n{text!r}')
         classes.append('CRLF' if r['nl'] == '\r\n' else 'LF')
         # ---- dump vs dumps, several option sets to the SAME path
         q = os.path.join(td, 'out', 'x', 'y', 'result.krn')
